@@ -16,7 +16,7 @@ PROP = "C18"
 MAX_STEPS = 80
 
 RAISES = ("app-error", "app-error-kwargs", "decorated", "defined", "undefined", "picky", "kwonly", "with-kwargs-attr", "app-error-noargs",
-          "on-cancel", "app-error-same-instance")
+          "on-cancel", "app-error-same-instance", "app-error-carrying-traceback")
 
 
 class DefinedError(Exception):
@@ -203,6 +203,9 @@ class World(DuoWorld):
             raise ApplicationError("com.example.carried.%s" % tok, *a, reason="why", n=3)
         if k == "app-error-noargs":
             raise ApplicationError("com.example.defined")
+        if k == "app-error-carrying-traceback":
+            # an error passed on from further down the line: it already carries a 'traceback' among its keyword arguments
+            raise ApplicationError("com.example.relayed", *a, traceback="Traceback (remote)", code=7)
         if k == "app-error-same-instance":
             # the application keeps one exception object and raises it whenever the condition recurs
             if self.kept_error is None:
@@ -255,6 +258,8 @@ class World(DuoWorld):
             return "com.example.carried.%s" % rec.tok, a, {"reason": "why", "n": 3}
         if k == "app-error-noargs":
             return "com.example.defined", [], {}
+        if k == "app-error-carrying-traceback":
+            return "com.example.relayed", a, {"code": 7}
         if k == "app-error-same-instance":
             return "com.example.overloaded", ["try later"], {"code": 503, "retry_after": 5}
         if k == "on-cancel":
@@ -430,7 +435,9 @@ class World(DuoWorld):
         if tb_on:
             if tb is None:
                 self.run.violate("C18.uri-args-kwargs", "traceback-not-forwarded", rec.tok)
-        elif tb is not None:
+        elif tb is not None and rec.kind != "app-error-carrying-traceback":
+            # (an error that carries a 'traceback' keyword argument of its own keeps one; its content is not judged -
+            # 'traceback' is the library's own keyword, ApplicationError.__str__ abbreviates it in place)
             self.run.violate("C18.uri-args-kwargs", "traceback-forwarded-although-off", rec.tok)
         if msg.error != uri:
             self.run.violate("C18.uri-args-kwargs", "error-uri:%s:%s" % (rec.kind, msg.error), "expected %s" % uri)
